@@ -281,9 +281,27 @@ fn list_pass(fam: &Family, compressed: bool, base: &Value, arrays: &[Path]) -> F
         let orig = at(&j, ap).cloned().unwrap();
         let arr = orig.as_array().unwrap();
         rep.positions += 1;
-        for action in ["droplast", "empty", "duplast"] {
+        for action in ["droplast", "empty", "duplast", "appendzero", "appendzeros"] {
             let mut a = arr.clone();
             match action {
+                "appendzero" | "appendzeros" => {
+                    // a zero element of the shape of the list's elements (field element or extension element):
+                    // an unpadded hash of the list does not see trailing zeros, only a length check does
+                    let zero = match a.last() {
+                        Some(Value::Number(_)) => json!(0u64),
+                        Some(Value::Array(e)) if e.iter().all(|x| x.is_number()) => Value::Array(vec![json!(0u64); e.len()]),
+                        _ => {
+                            if comp == "public_inputs" { json!(0u64) } else {
+                                rep.record(form, action, &comp, "same", false);
+                                continue;
+                            }
+                        }
+                    };
+                    let k = if action == "appendzero" { 1 } else { 8usize.saturating_sub(a.len() % 8).max(2) };
+                    for _ in 0..k {
+                        a.push(zero.clone());
+                    }
+                }
                 "droplast" => {
                     if a.pop().is_none() {
                         rep.record(form, action, &comp, "same", false);
